@@ -156,7 +156,10 @@ fn gen_case(u: &mut Unstructured<'_>, min_steps: usize, max_steps: usize) -> arb
         let n = u.int_in_range(min_steps..=max_steps)?;
         let mut steps = Vec::new();
         for _ in 0..n {
-            let advance = match u.int_in_range(0..=11u8)? {
+            let advance = match u.int_in_range(0..=12u8)? {
+                // whole years (common / leap / four of them), give or take: the clock returns to the
+                // same day of the year
+                12 => *u.choose(&[365i64, 365, 366, 730, 731, 1_461])? * 86_400 + u.range_i64(-90_000, 90_000)?.max(-86_400 * 364),
                 0 | 1 | 2 => 0,
                 3 => u.int_in_range(1..=59i64)?,
                 // marker values resolved at run time relative to the last result
